@@ -24,7 +24,7 @@ ASSUMPTIONS = ["Array.data is documented as freely modifiable shared state and i
 
 MUTATORS = ['invert_all', 'invert_one', 'set_all', 'set_one', 'append', 'prepend', 'insert', 'overwrite', 'del_slice', 'setitem', 'setslice',
             'replace', 'reverse', 'rol', 'ror', 'byteswap', 'ilshift', 'irshift', 'imul', 'iand', 'ior', 'ixor', 'clear', 'iadd', 'prop_uint',
-            'prop_bin', 'prop_hex', 'prop_bits', 'prop_bytes']
+            'prop_bin', 'prop_hex', 'prop_bits', 'prop_bytes', 'ilshift_all', 'irshift_all', 'iand_zeros', 'ior_ones', 'imul_one', 'set_all_then_invert']
 DERIVES = ['ctor_Bits', 'ctor_BitArray', 'ctor_ConstBitStream', 'ctor_BitStream', 'kw_bits', 'set_bits_prop', 'get_bits_prop', 'copycopy',
            'copy_method', 'slice_all', 'slice_part', 'slice_step', 'add', 'radd_str', 'mul', 'invert', 'and_self', 'or', 'xor', 'lshift', 'rshift',
            'join', 'join_empty', 'fromstring', 'literal', 'literal_other_cls', 'pack_bits', 'pack_kw', 'pack_token_kw', 'dtype_build', 'dtype_parse',
@@ -519,6 +519,19 @@ class World:
                 x >>= 1 + a % 3
             elif how == 'imul':
                 x *= a % 3
+            elif how == 'ilshift_all':
+                x <<= n + (a % 3)
+            elif how == 'irshift_all':
+                x >>= n + (a % 3)
+            elif how == 'iand_zeros':
+                x &= mk('Bits', '0' * n)
+            elif how == 'ior_ones':
+                x |= mk('Bits', '1' * n)
+            elif how == 'imul_one':
+                x *= 1
+            elif how == 'set_all_then_invert':
+                x.set(1)
+                x.invert()
             elif how == 'iand':
                 x &= same_len_other
             elif how == 'ior':
@@ -749,6 +762,10 @@ def chain_case(draw, tier):
     steps = [['create', cls, draw(bits_st(max_len=70, min_len=1)), draw(st.sampled_from(['bin', 'literal', 'fromstring', 'hexlit']))]]
     structural = ['slice_all', 'slice_part', 'slice_step', 'cut', 'split', 'read', 'copy_method', 'copycopy', 'add', 'mul', 'invert', 'join', 'kw_bits', 'set_bits_prop', 'fromstring',
                   'pack_bits', 'tobitarray_roundtrip', 'empty_append', 'lshift', 'or']
+    if draw(st.integers(0, 2)) == 0:
+        # the source itself has just been produced by an in-place operation
+        steps.append(['mutate', draw(st.sampled_from(['ilshift_all', 'irshift_all', 'iand_zeros', 'ior_ones', 'imul_one', 'set_all_then_invert', 'ilshift', 'clear', 'prop_bin', 'reverse', 'invert_all',
+                                                      'iadd', 'prop_uint'])), 0, draw(raw), draw(raw), draw(raw), draw(bits_st(max_len=12))])
     steps.append(['derive', draw(st.sampled_from(structural if draw(st.booleans()) else DERIVES)), 0, draw(raw), draw(raw), draw(raw)])
     for _ in range(draw(st.integers(1, 2))):
         k = draw(st.integers(0, 3))
